@@ -10,6 +10,10 @@ import GscribModel.Drv.Format
 import GscribModel.Drv.Tracer
 import GscribModel.Drv.GState
 import GscribModel.Drv.PointSrc
+import GscribModel.Drv.SocketSrc
+import GscribModel.Drv.ReportSrc
+import GscribModel.Drv.BoundsSrc
+import GscribModel.Drv.HookSrc
 /-! Line-protocol driver: `driver <mode>` (or `lake env lean --run Driver.lean <mode>`) reads one
     case/operation per line on stdin and prints exactly one record per line (`bad-op …` for an
     unparsable line).  Each mode lives in `GscribModel/Drv/<Mode>.lean`. -/
@@ -29,4 +33,8 @@ def main (args : List String) : IO UInt32 := do
   | ["tracer"] => TracerDrv.main; return 0
   | ["gstate"] => GStateDrv.main; return 0
   | ["point"] => PointSrcDrv.main; return 0
+  | ["socketsrc"] => SocketSrcDrv.main; return 0
+  | ["reportsrc"] => ReportSrcDrv.main; return 0
+  | ["bounds"] => BoundsSrcDrv.main; return 0
+  | ["hook"] => HookSrcDrv.main; return 0
   | _ => IO.eprintln s!"unknown mode {args}"; return 2
